@@ -182,8 +182,15 @@ func (brr *BalanceRR) Update(conf cluster_table_conf.SubClusterBackend) {
 		}
 	}
 
-	// add new backend to backendsNew
-	for _, bkConf := range confMap {
+	// add new backend to backendsNew, in order of address
+	// (iteration order of map is not deterministic)
+	newKeys := make([]string, 0, len(confMap))
+	for key := range confMap {
+		newKeys = append(newKeys, key)
+	}
+	sort.Strings(newKeys)
+	for _, key := range newKeys {
+		bkConf := confMap[key]
 		backendRR := NewBackendRR()
 		backendRR.Init(brr.Name, bkConf)
 		backend := backendRR.backend
